@@ -62,9 +62,12 @@ impl CheckDef for Comp {
         let (mut cap, mut floor, mut gran, mut huge) = (false, false, false, false);
         let near = |a: u128, b: u128| (a as i128 - b as i128).abs() <= TOL;
 
-        if est.retransmission_timeout().as_nanos() != rto::INITIAL {
-            return Outcome::violation("initial-rto", "initial RTO is not the documented 300 ms");
+        // the value before the first sample is not part of the property beyond its bounds: the model starts from it
+        let init = est.retransmission_timeout().as_nanos();
+        if !(rto::MIN_RTO..=rto::MAX_RTO).contains(&init) {
+            return Outcome::violation("initial-rto", format!("the retransmission timeout before any sample is {init} ns, outside 200 ms..60 s"));
         }
+        m.rto = init;
         for (i, ev) in case.evs.iter().enumerate() {
             let prev_rto = est.retransmission_timeout().as_nanos();
             match ev {
